@@ -477,6 +477,13 @@ impl Property for C01 {
             cfg.stop = false;
             cfg.end_mid = false;
         }
+        if rng.below(250) == 0 {
+            // the documented control flow also has to survive Ctrl-C + CONT at every instruction
+            // (C13's enumeration over this check's kind of program: NEXT lists, landing pads,
+            // self-restarts, ON.. at the end)
+            cfg.tron = false;
+            return crate::props::c13::interrupt_case(rng, cfg, "C01", 300);
+        }
         let prog = gen_program(rng, cfg.clone());
         if !cfg.tron && !cfg.stop && !cfg.end_mid && !cfg.fns && !prog.lines.is_empty() && rng.pct(8) {
             // tracing switched on from the prompt and left on over several commands that enter the
